@@ -38,6 +38,7 @@ pub fn rand_script(rng: &mut Rng, len: usize, end: u64) -> Vec<ScriptLine> {
         match rng.below(10) {
             0 | 1 => v.push(rand_print_cmd(rng)),
             2 => v.push(ScriptLine::garbage(rng)),
+            3 if rng.chance(1, 2) => v.push(ScriptLine { raw: rng.pick(&["", " ", "\t", "   "]).to_string(), newline: true, cls: "garbage", what: None }),
             _ => v.push(ScriptLine::next(rng)),
         }
     }
